@@ -211,6 +211,10 @@ func execC16(r *kernel.Run, s C16Spec) {
 	r.Logf("bits=%v attrs=%v procs=%d steps=%d hash=%s states=%v deadlock=%v", s.Bits, s.Attrs, s.Procs, sc.Steps(), sc.SwitchHash(), states, deadlock)
 	r.Distinct("interleaving " + sc.SwitchHash())
 	r.Stats().Probes["steps"] += sc.Steps()
+	r.Stats().Faults["preemption(context switch at a yield point)"] += len(sc.Sw)
+	for _, b := range s.Buggify {
+		r.Stats().Faults["buggify:"+b]++
+	}
 	for k, v := range states {
 		r.Stats().Probes["task:"+k] += v
 	}
